@@ -390,11 +390,17 @@ class Check(FormulaCheck):
                     continue
                 unk = nm
                 what = 'variable'
-            ctx = rnd.choice(['whole', 'left', 'right', 'arg-first', 'arg-last', 'array', 'nested', 'uminus', 'iferror', 'cmp', 'amp', 'deep', 'paren', 'if-branch', 'iserror'])
+            ctx = rnd.choice(['whole', 'left', 'right', 'arg-first', 'arg-last', 'array', 'nested', 'uminus', 'iferror', 'cmp', 'amp', 'deep', 'paren', 'if-branch', 'iserror',
+                              'after-nested-evaluations', 'after-nested-evaluations', 'between-nested-evaluations'])
+            # EV evaluates its (text) argument on THIS parser, as a host does that keeps formulas in cells: the unknown name stands behind
+            # one, two or three such nested evaluations of the same outer formula
+            self.e.p.set_function('EV', lambda t, _p=self.e.p: _p.parse(str(t))['result'])
             carrier = G.text(G.render(G.ExprGen(rnd, maxdepth=rnd.randint(0, 3)).tree(), 'min'))
             f = {'whole': unk, 'left': '%s+%s' % (unk, carrier), 'right': '(%s)*%s' % (carrier, unk), 'arg-first': 'SUM(%s,1,2)' % unk, 'arg-last': 'MAX(1,(%s),%s)' % (carrier, unk),
                  'array': '{1,%s,3}' % unk, 'nested': 'ABS(SUM(1,MAX(%s,2)))' % unk, 'uminus': '-%s' % unk, 'iferror': 'IFERROR(%s,0)' % unk, 'cmp': '%s=1' % unk,
-                 'amp': '"a"&%s' % unk, 'deep': '((1+(2*(%s))))-(%s)' % (unk, carrier), 'paren': '(%s)' % unk, 'if-branch': 'IF(TRUE,1,%s)' % unk, 'iserror': 'ISERROR(%s)' % unk}[ctx]
+                 'amp': '"a"&%s' % unk, 'deep': '((1+(2*(%s))))-(%s)' % (unk, carrier), 'paren': '(%s)' % unk, 'if-branch': 'IF(TRUE,1,%s)' % unk, 'iserror': 'ISERROR(%s)' % unk,
+                 'after-nested-evaluations': rnd.choice(['SUM(EV("1"),EV("2"))+%s', 'EV("1")+EV("2")+%s', 'EV("1+1")*EV("xa")*EV("3")-%s', 'MAX(EV("A1"),EV("2"),%s)', 'EV("1")&EV("nosuch2")&%s']) % unk,
+                 'between-nested-evaluations': 'EV("1")+EV("2")+%s+EV("3")' % unk}[ctx]
             handling = None
             if rnd.random() < 0.15:
                 # the unknown name is met while the host is handling an error of the library (a fallback formula evaluated in an except block)
